@@ -79,7 +79,7 @@ def coq_cone(vfile):
         if f in seen or not os.path.exists(os.path.join(coq, f)): continue
         seen.append(f)
         src = strip_comments(open(os.path.join(coq, f)).read())
-        for m in re.finditer(r'Require\s+(?:Import|Export)?\s*([^.]*(?:\.[A-Za-z_][\w]*)*[^.]*)\.\s', src):
+        for m in re.finditer(r'Require\s+(?:Import\s+|Export\s+)?([\w.\s]+?)\.(?=\s)', src):
             for name in m.group(1).split():
                 if name.startswith('LruV.'):
                     todo.append(name[len('LruV.'):].replace('.', '/') + '.v')
@@ -273,13 +273,16 @@ def extract_trace(stream, trace_idx):
 def fails_for(pid, corr):
     cfg = PROPS[pid]
     comps = set(cfg['comps'])
+    comps_any = set(cfg.get('comps_any', []))      # components that count whatever the operation
     ops = cfg.get('ops')
     found = []
     for name, job in sorted(corr['jobs'].items()):
         for f in job['fails']:
-            hit = [c for c in f['comps'] if c in comps]
+            if ops is None or f.get('op') in ops:
+                hit = [c for c in f['comps'] if c in comps or c in comps_any]
+            else:
+                hit = [c for c in f['comps'] if c in comps_any]
             if not hit: continue
-            if ops is not None and f.get('op') not in ops: continue
             found.append(dict(job=name, stream=job['stream'], hit=hit, **f))
     return found
 
@@ -373,9 +376,27 @@ def main():
         if bad: print('VIOLATION property=%s replay=%s' % (pid, replay))
         return 1 if bad else 0
 
+    static = None
+    if cfg.get('static') == 'c19':
+        # static half of C19: tables regenerated from /repo/src by the syn translator, theorem re-checked
+        import sig_check
+        try:
+            ok_s, det = sig_check.c19_static()
+        except Exception as ex:
+            ok_s, det = False, dict(problems=['sig_check.c19_static raised %r' % (ex,)], witness=None)
+        static = (ok_s, det)
     proof = proof_side(pid)
     corr = correspondence(tier, seed)
     violations = []          # (replay path, description, no_input_found)
+    if static is not None and not static[0]:
+        det = static[1]
+        hdr = ['property=%s' % pid, 'static check (Gen/C19Static.v over the call graph regenerated from /repo/src) fails:'] + \
+              [str(x)[:1500] for x in (det.get('problems') or [])] + ['witness (function reachable from a &self operation that contains a write primitive): %s' % (det.get('witness'),),
+               'failing roots: %s' % (det.get('failing_roots'),), 'theorem: %s' % (det.get('theorem'),)]
+        path = write_replay(pid, 'static', hdr, [])
+        # a concrete witness path in the source is a failing input for "never writes" only if the write executes; the
+        # fingerprint comparison below looks for an execution; the static witness alone is reported as such
+        violations.append((path, 'a write primitive is reachable from a shared-reference operation: %s' % (det.get('witness'),), not bool(det.get('witness'))))
     known_hits = []
     known = [k for k in load_known() if k['pid'] == pid]
 
@@ -443,10 +464,10 @@ def main():
             checker_cmd='make -C coq (coq_makefile, coqc 8.16.1, full .vo) && coqc -Q coq LruV coq/Properties/%s.v ; audit: no Admitted/admit/Axiom/Parameter/Conjecture/guard-off in coq/, Print Assumptions closed or allow-listed' % pid,
             trusted_base=TRUSTED_BASE + cfg.get('trusted_extra', []),
             theorems=proof['theorems'], axioms_reported=proof['axioms'], print_assumptions=proof.get('print_assumptions'),
-            proof_problems=proof['problems'],
+            proof_problems=proof['problems'], static_c19=(None if static is None else dict(ok=static[0], roots=static[1].get('roots'), functions=static[1].get('functions'), functions_with_write_primitive=static[1].get('functions_with_write_primitive'), clone=static[1].get('clone'), not_covered=static[1].get('not_covered'))),
             traces_validated_against_impl=tot_traces, evaluations=tot_steps, distinct_nontrivial=nontriv,
             rule='one evaluation = one observed step (pre-state, operation, result, post-state) of the real LruCache, checked against the extracted Coq model started from the observed pre-state and against the extracted monitors; distinct = distinct (operation, pre-state entries, limit) triples; non-trivial = pre-state non-empty',
-            components_checked={k: v for k, v in sorted(checked.items()) if k in cfg['comps']},
+            components_checked={k: v for k, v in sorted(checked.items()) if k in cfg['comps'] or k in cfg.get('comps_any', [])},
             components_of_this_property=cfg['comps'], ops_of_this_property=cfg.get('ops') or 'all',
             operation_histogram=ophist, input_distribution=dist,
             jobs=sorted(corr['jobs'].keys()), correspondence_cached=corr.get('cached', False),
